@@ -14,16 +14,18 @@ out = ['# Which checks catch which breaking changes', '',
        '`VERIF_SENS_OUT=seeded/results_mutants.json ./check selftest sensitivity` (quick tier, seed 1): the working tree is copied to',
        '/dev/shm, one patch is applied, the property\'s quick check runs against the copy (`VERIF_REPO`).', '',
        '| change | origin | property | outcome | first violation class reported |', '|---|---|---|---|---|']
-n = {'caught': 0, 'missed': 0, 'green': 0, 'false alarm': 0}
+n = {'caught': 0, 'missed': 0, 'green': 0, 'false alarm': 0, 'not detected': 0}
 for r in sorted(rows, key=lambda r: (str(r['property']), r['patch'])):
     prop = r['property'] if isinstance(r['property'], str) else 'all 18'
-    if r['expect'] == 'equivalent':
+    if r['expect'] == 'out_of_reach':
+        oc = 'caught' if r['caught_by'] else 'not detected'
+    elif r['expect'] == 'equivalent':
         oc = 'false alarm' if r['caught_by'] else 'green'
     else:
         oc = 'caught' if r['caught_by'] else 'missed'
     n[oc] += 1
     origin = 'sub-agent (property text only)' if r['patch'].startswith('seeded/') else (r.get('origin') or '')
-    out.append('| `%s` | %s | %s | **%s**%s | %s |' % (r['patch'], origin, prop, oc, (' (property-preserving change)' if r['expect'] == 'equivalent' else ''), (r['first_class'] or r.get('what', ''))[:140].replace('|', '/')))
-out += ['', 'Totals: %d breaking changes caught, %d missed; %d property-preserving changes stayed green, %d false alarms.' % (n['caught'], n['missed'], n['green'], n['false alarm'])]
+    out.append('| `%s` | %s | %s | **%s**%s | %s |' % (r['patch'], origin, prop, oc, (' (property-preserving change)' if r['expect'] == 'equivalent' else (' (declared out of reach: ' + r.get('why', '')[:120] + ')' if r['expect'] == 'out_of_reach' else '')), (r['first_class'] or r.get('what', ''))[:140].replace('|', '/')))
+out += ['', 'Totals: %d breaking changes caught, %d missed, %d not detected because declared out of reach of the technique; %d property-preserving changes stayed green, %d false alarms.' % (n['caught'], n['missed'], n['not detected'], n['green'], n['false alarm'])]
 open(os.path.join(HERE, 'seeded', 'RESULTS.md'), 'w').write('\n'.join(out) + '\n')
 print(out[-1])
